@@ -12,12 +12,18 @@ run $src/demo$suf.py > $src/confirm${suf}_clean.log; rc_clean=$?
 git apply $src/patch$suf.diff || { echo '{"applies": false}' > $src/confirm$suf.json; cd /; git -C /repo worktree remove --force $wt; exit 1; }
 run $src/demo$suf.py > $src/confirm${suf}_patched.log; rc_patched=$?
 tests=skipped
+extra=""
+# "nolearn": the whole suite except the PPO learning tests of test_run_learn.py (minutes each, and far slower when several
+# confirmations run side by side); the record says so in "tests_scope"
+if [ "$3" = "nolearn" ]; then extra="--ignore=incomplete_cooperative/tests/test_run_learn.py"; fi
 if [ "$3" != "notests" ]; then
-  timeout 3600 /venv/bin/python -m pytest -q -p no:cacheprovider --timeout=900 --continue-on-collection-errors --junitxml=$src/confirm${suf}_junit.xml > $src/confirm${suf}_tests.log 2>&1
+  timeout 3600 /venv/bin/python -m pytest $extra -q -p no:cacheprovider --timeout=900 --continue-on-collection-errors --junitxml=$src/confirm${suf}_junit.xml > $src/confirm${suf}_tests.log 2>&1
   /venv/bin/python - <<PY > $src/confirm${suf}_tests.json
 import json, xml.etree.ElementTree as ET
 b=json.load(open('/root/.vp/BASELINE.json'))
 stable=set(b['stable_pass'])
+if '$3' == 'nolearn':
+    stable={x for x in stable if 'test_run_learn' not in x}
 t=ET.parse('$src/confirm${suf}_junit.xml')
 passed=set()
 bad=set()
@@ -28,7 +34,7 @@ for tc in t.iter('testcase'):
     elif not any(ch.tag=='skipped' for ch in tc):
         passed.add(name)
 missing=sorted(x for x in stable if x not in passed)
-print(json.dumps({"stable":len(stable),"stable_passed":len(stable)-len(missing),"stable_not_passed":missing[:20]}))
+print(json.dumps({"tests_scope": ("whole suite except test_run_learn.py" if '$3' == 'nolearn' else "whole suite"), "stable":len(stable),"stable_passed":len(stable)-len(missing),"stable_not_passed":missing[:20]}))
 PY
   tests=$(cat $src/confirm${suf}_tests.json)
 fi
